@@ -115,11 +115,18 @@ class VLoop(asyncio.SelectorEventLoop):
         self.transports = []
         self.log = []
         self.script_factory = script_factory
+        self.create_failures = 0
 
     def time(self):
         return self._vclock[0]
 
     async def create_datagram_endpoint(self, protocol_factory, local_addr=None, remote_addr=None, **kwargs):
+        if self.create_failures > 0:
+            # the OS refuses to create/connect the socket (EACCES, EMFILE, ...)
+            self.create_failures -= 1
+            self.log.append({"ev": "create-failed", "transport": None, "t": self.time()})
+            await asyncio.sleep(0)
+            raise PermissionError(13, "Permission denied")
         protocol = protocol_factory()
         index = len(self.transports)
         transport = FakeDatagramTransport(self, protocol, remote_addr, index, self.log, self.script_factory(index))
